@@ -254,9 +254,30 @@ class ChunkFeeder:
                 return _o(message, rawbytes)
             self.client._process_command = spy
 
-    def run(self, chunks):
+    def run(self, chunks, eof_first=False):
+        """eof_first: the peer has sent everything and closed before the reader task gets to run (all chunks and EOF are in the
+        StreamReader before the first read): every complete message must still be delivered, then EOF ends the loop"""
         out = []
         err = None
+        if eof_first:
+            async def consume_all():
+                while True:
+                    out.append(await self.client.read_message())
+
+            async def drive_eof():
+                nonlocal err
+                for c in chunks:
+                    self.reader.feed_data(c)
+                self.reader.feed_eof()
+                try:
+                    await consume_all()
+                except BrokenPipeError:
+                    pass                      # the connection is closed: the expected end
+                except Exception as e:        # noqa
+                    err = repr(e)
+            self.loop.run_until_complete(drive_eof())
+            self.loop.close()
+            return out, err
 
         async def consume():
             while True:
@@ -327,6 +348,11 @@ def stream_case(ctx, m, r, model, fixed=None):
         out, err = fd.run(chunks)
         got = [[c, typed(k)] for c, k in out]
         results.append((chunks, got, err, fd.frames))
+    # the same stream with the peer's close already fed before the first read (only complete messages are sent here)
+    fd = ChunkFeeder(m, which)
+    out, err = fd.run(chunkings(r, data, 1)[-1], eof_first=True)
+    results.append(([data, b"<eof-before-first-read>"], [[c, typed(k)] for c, k in out], err, fd.frames))
+    ctx.count("stream_eof_before_first_read")
     case = {"kind": "stream", "client": which, "expected": expected, "data": data.hex()}
     ctx.count("stream_msgs", len(msgs))
     ctx.count("stream_payloads", sum(1 for x in msgs if x[2] is not None))
